@@ -42,6 +42,7 @@ type scenario struct {
 	P2     string `json:"p2"`     // commit | rollback: what the transaction manager decides if phase one returned nil
 	How    string `json:"how"`    // once | dup | retry | restart | other
 	Ver    string `json:"ver"`    // server version
+	Ca     int    `json:"ca"`     // 1: explicit transaction: Commit is called although the business statement failed
 	Reuse  int    `json:"reuse"`  // 1: the pooled connection served a complete XA transaction before; 2: another global transaction uses the pool between phase one and phase two
 	Xid    string `json:"xid"`    // xid flavour: "" (plain) | dash | long | quote   (data dimension, chosen by the driver)
 }
@@ -248,6 +249,11 @@ func call(ctx context.Context, db *sql.DB, sc scenario) (err error, panicked int
 		_, e = tx.ExecContext(ctx, q, args...)
 	}
 	if e != nil {
+		if sc.Ca == 1 {
+			// an application that does not look at the statement's error and commits: whatever Commit says is what
+			// the business callback returns
+			return tx.Commit(), nil
+		}
 		_ = tx.Rollback() // what an application does with a failed statement
 		return e, nil
 	}
@@ -602,6 +608,9 @@ func run(lab *atlab.XALab, t *trace.T, sc scenario, r rnd) (refused bool) {
 	sig := fmt.Sprintf("%s:%s:reg=%s:fault=%s:ver=%s:p2=%s-%s:reuse=%d:xid=%s", sc.Mode, sc.Kind, sc.Reg, faultClass, sc.Ver, kind, sc.How, sc.Reuse, xf)
 	if slowLeg {
 		sig += ":slow"
+	}
+	if sc.Ca == 1 {
+		sig += ":commit-anyway"
 	}
 	for _, e := range evs {
 		kv := append([]interface{}{}, e.kv...)
